@@ -22,6 +22,7 @@ mod c19;
 mod c15;
 mod c12;
 mod c20;
+mod c02;
 
 fn main() {
     let args: Vec<String> = std::env::args().collect();
@@ -59,6 +60,7 @@ fn main() {
         "C15" => c15::main(tier, seed, n),
         "C12" => c12::main(tier, seed, n),
         "C12stages" => c12::stages(tier, seed, n),
+        "C02" => c02::main(tier, seed, n),
         p => { eprintln!("unknown property {}", p); std::process::exit(2); }
     }
 }
